@@ -1,4 +1,3 @@
 package main
 
 
-func genFormatter(c *ctx, s *schema)                   {}
